@@ -12,7 +12,16 @@ BIN="$VERIF_DIR/bin/vsim.$$"
 LOG="$VERIF_DIR/bin/build.$$.log"
 SCRATCH="$VERIF_DIR/bin/repo.auto"
 MODF="$VERIF_DIR/sim/go.auto.mod"
-cleanup() { rm -rf "$LOG" "$BIN" "$VERIF_DIR/bin/autoyield.$$"; }
+# Mode B: the harness packages are built without race instrumentation (their state is only
+# ever touched by the one running task; instrumenting it would bury the log in reports about
+# the harness itself); the library, the standard library and the kernel package are instrumented
+NORACE_HARNESS="-gcflags=verifsim/core=-race=false -gcflags=verifsim/graphsim=-race=false -gcflags=verifsim/agentsim=-race=false -gcflags=verifsim/streamsim=-race=false -gcflags=verifsim/cmd/vsim=-race=false"
+cleanup() { rm -rf "$LOG" "$BIN" "$BIN.race" "$VERIF_DIR/bin/autoyield.$$"; }
+# the race-detector build (Mode B) is needed by the checks that decide a data-race clause and by replays of their findings
+WANT_RACE=0
+case "$1:$2" in
+  check:*|replay:*|build:*) WANT_RACE=1 ;;
+esac
 trap cleanup EXIT INT TERM
 cp /repo/go.sum go.sum 2>/dev/null
 fail() { echo "BUILD FAILED (exit 2, not a violation):"; cat "$LOG"; exit 2; }
@@ -28,11 +37,18 @@ if [ "${VERIF_AUTOYIELD:-1}" = "1" ]; then
     "$VERIF_DIR/bin/autoyield.$$" "$SCRATCH" || exit 1
     sed "s#=> /repo#=> $SCRATCH#" go.mod > "$MODF"; cp go.sum "${MODF%.mod}.sum"
     go build -modfile="$MODF" -tags verif -o "$BIN" ./cmd/vsim || exit 1
+    if [ "$WANT_RACE" = "1" ]; then
+      go build -race $NORACE_HARNESS -modfile="$MODF" -tags verif -o "$BIN.race" ./cmd/vsim || exit 1
+    fi
     rm -rf "$SCRATCH" "$MODF" "${MODF%.mod}.sum"
   ) 9>"$VERIF_DIR/bin/.buildlock" >"$LOG" 2>&1 || fail
 else
   go build -tags verif -o "$BIN" ./cmd/vsim >"$LOG" 2>&1 || fail
+  if [ "$WANT_RACE" = "1" ]; then
+    go build -race $NORACE_HARNESS -tags verif -o "$BIN.race" ./cmd/vsim >"$LOG" 2>&1 || fail
+  fi
 fi
+if [ "$WANT_RACE" = "1" ]; then VSIM_RACE_BIN="$BIN.race"; export VSIM_RACE_BIN; fi
 rm -f "$LOG"
 cd "$VERIF_DIR" || exit 2
 cmd="$1"; shift
@@ -40,7 +56,7 @@ case "$cmd" in
   check)   "$BIN" check -prop "$1" -tier "${2:-${VERIF_TIER:-quick}}"; rc=$? ;;
   replay)  "$BIN" replay -file "$1"; rc=$? ;;
   dettest) "$BIN" dettest -prop "$1" -n "${2:-200}" -procs "${3:-30}"; rc=$? ;;
-  build)   cp "$BIN" "$VERIF_DIR/bin/vsim"; rc=0 ;;
+  build)   cp "$BIN" "$VERIF_DIR/bin/vsim"; cp "$BIN.race" "$VERIF_DIR/bin/vsim.race"; rc=0 ;;
   *) echo "usage: run.sh check|replay|dettest|build ..."; rc=2 ;;
 esac
 exit $rc
